@@ -24,6 +24,7 @@ import DtailModel.Model.Limiter
 import DtailModel.Model.Conn
 import DtailModel.Model.Multi
 import DtailModel.Model.Tail
+import DtailModel.Model.Session
 open Dtail
 
 structure Res where
@@ -915,6 +916,75 @@ def opC04Tail : List String → Res
     | _, _ => bad
   | _ => bad
 
+/-! C02 -/
+
+def parseSizes (s : String) : Option (List Nat) := (s.splitOn "+").mapM (·.toNat?)
+
+/-- replay an observed session on the LTS with a lazy schedule: a line is queued right before it
+    is delivered (always admissible: the observed order is the queue's order), a reader finishes
+    when its last line is queued, the handshake needs `flushDone` to be enabled -/
+def c02replay (sizes : List Nat) (events : List String) : Except String Sess :=
+  let step (s : Sess) (l : SLabel) (what : String) : Except String Sess :=
+    match sessStep s l with | some s' => .ok s' | none => .error s!"REJECTED at {what}"
+  let finishIfThrough (s : Sess) (c : Nat) (what : String) : Except String Sess :=
+    match s.cmds[c]?, s.sizes[c]? with
+    | some (.reading k), some n => if k = n + 1 then step s (.finish c) what else .ok s
+    | _, _ => .ok s
+  events.foldlM (fun s ev =>
+    if ev.startsWith "c" then do
+      let c := ((ev.drop 1).toString.toNat?).getD 0
+      let s ← step s (.recv c) ev
+      finishIfThrough s c ev
+    else if ev.startsWith "l" then
+      match (ev.drop 1).toString.splitOn "." with
+      | [cs, ks] =>
+        let c := cs.toNat?.getD 0
+        let k := ks.toNat?.getD 0
+        if nextOf s c ≠ k then .error s!"REJECTED at {ev} (expected line {nextOf s c})" else do
+        let s ← step s (.push c) ev
+        let s ← step s .deliver ev
+        finishIfThrough s c ev
+      | _ => .error "bad event"
+    else if ev = "syn" then do
+      let s ← step s .flushDone ev
+      step s .deliverSyn ev
+    else .ok s) (sessInit sizes)
+
+def opC02Session : List String → Res
+  | [_limit, files, _script, obs] => match parseSizes files with
+    | some sizes =>
+      let events := (obs.splitOn ",").filter (· ≠ "")
+      let sent := events.filterMap fun e => if e.startsWith "c" then (e.drop 1).toString.toNat? else none
+      let sawSyn := events.contains "syn"
+      let deliveredOf (c : Nat) := (events.filter (·.startsWith s!"l{c}.")).length
+      let complete := sent.all fun c => deliveredOf c == sizes.getD c 0
+      match c02replay sizes events with
+      | .ok s =>
+        { m := obs, s := if !sawSyn then "-" else if complete then obs else "INCOMPLETE-AT-CLOSE",
+          g := if s.lateRecv then "idle-between-commands" else "-",
+          t := joinWith "," ((if sent.length > 1 then ["multi-command"] else []) ++ (if sawSyn then ["closed"] else [])
+            ++ (if s.lateRecv then ["late-command"] else []) ++ (if sizes.any (· > 100) then ["queue-full"] else [])
+            ++ (if events.contains "idle" then ["idle-seen"] else [])) }
+      | .error e => { m := e, s := if !sawSyn then "-" else if complete then obs else "INCOMPLETE-AT-CLOSE" }
+    | none => bad
+  | _ => bad
+
+def opC02E2E : List String → Res
+  | [transport, files, _delay, _chunk, obs] => match parseSizes files with
+    | some sizes =>
+      let want := "0;" ++ joinWith "&" (sizes.zipIdx.map fun (n, i) => s!"f{i}=" ++ (if n = 0 then "none" else s!"1..{n}"))
+      -- admissible: every file's lines are a prefix 1..k
+      let parts := (obs.splitOn ";").getD 1 "" |>.splitOn "&"
+      let adm := parts.all fun p => match p.splitOn "=" with
+        | [_, v] => v = "none" ∨ v.startsWith "1.."
+        | _ => false
+      { m := if adm then obs else "INADMISSIBLE", s := want,
+        g := if sizes.length > 1 ∧ adm ∧ obs ≠ want then "idle-between-commands" else "-",
+        t := joinWith "," ([transport] ++ (if sizes.length > 1 then ["multi-file"] else ["single-file"])
+          ++ (if sizes.any (· > 100) then ["queue-full"] else [])) }
+    | none => bad
+  | _ => bad
+
 def dispatch (line : String) : Res :=
   match (line.splitOn " ").filter (· ≠ "") with
   | "c01.reader" :: a => opC01Reader a
@@ -922,6 +992,8 @@ def dispatch (line : String) : Res :=
   | "c01.e2e" :: a => opC01E2E a
   | "c03.grep" :: a => opC03Grep a
   | "c03.e2e" :: a => opC03E2E a
+  | "c02.session" :: a => opC02Session a
+  | "c02.e2e" :: a => opC02E2E a
   | "c04.perc" :: a => opC04Perc a
   | "c04.tail" :: a => opC04Tail a
   | "c05.agg" :: a => opC05Agg a
